@@ -9,7 +9,8 @@
    §C  capture-module: exported normal form, total length, concrete offsets, length prefixes, NUL padding        (finding 2)
        and what happens to vendor data of 65536 bytes or more (NEGATIVE: the getter's length wraps)              (finding 8)
    §D  CAN DLC: complete characterisation of `dlcOf` on every length, and the lengths without a DLC code          (finding 3)
-       (NEGATIVE: for the 240 lengths without an ISO code the DLC byte says "0 bytes" and the library accepts it)
+       (was NEGATIVE — DLC 0 next to a non-zero data length for the 240 lengths without an ISO code; the library's `encodeDlc`
+        has been repaired: such a length gets the next larger code, so the DLC code always COVERS the data length)
    §E  built payloads pushed through the message framing (`msgValid`, `Packet.ofMsg`, the decoder's `walk`)       (finding 4)
    §F  `TECMP::LinPayload::setData`, from the translated source                                                    (finding 5)
    §G  evaluated examples                                                                                         (finding 9)
@@ -483,19 +484,23 @@ theorem cm_vendor_length_wraps (b s1 s2 s3 s4 v : Bytes)
 
 /-! ## §D  the CAN DLC code  (finding 3)
 
-  ISO 11898-1: DLC code `c` (0..15) stands for `[0,1,2,3,4,5,6,7,8,12,16,20,24,32,48,64][c]` data bytes.  The registered `dlc_iso`
-  pins `dlcOf` at these sixteen lengths only.  Here: `dlcOf` on EVERY length. -/
+  ISO 11898-1: DLC code `c` (0..15) stands for `[0,1,2,3,4,5,6,7,8,12,16,20,24,32,48,64][c]` data bytes (`C13.dlcLen`,
+  `C13.dlcLen_table`).  The registered `dlc_iso` pins `dlcOf` at these sixteen lengths only.  Here: `dlcOf` on EVERY length
+  (`C13.dlc_covers`, `dlc_exact_iff`, `dlc_above_64` say the same with `dlcLen`). -/
 
 /-- complete characterisation of `dlcOf` (hence, by `GenChecks.dlc_ok` / `encodeDlc_src`, of `CanPayloadBase::encodeDlc`):
     * the code is always in 0..15;
     * for a length that HAS an ISO code, the code decodes back to exactly that length, and it is the only such code;
-    * for every other length — 9,10,11,13,… and everything above 64 — the result is 0. -/
+    * for every length a CAN FD frame can carry (0..64, ISO or not) the code's data field covers the length and no smaller
+      code's does — which determines the code: 9,10,11 ↦ 9 (12 bytes), 13..15 ↦ 10 (16 bytes), …, 49..63 ↦ 15 (64 bytes);
+    * for everything above 64 the result is 15, the largest code. -/
 theorem dlc_complete (n : Nat) :
     dlcOf n ≤ 15 ∧
     (n ∈ [0,1,2,3,4,5,6,7,8,12,16,20,24,32,48,64] → [0,1,2,3,4,5,6,7,8,12,16,20,24,32,48,64].getD (dlcOf n) 0 = n) ∧
     (∀ c, c ≤ 15 → [0,1,2,3,4,5,6,7,8,12,16,20,24,32,48,64].getD c 0 = n → dlcOf n = c) ∧
-    (n ∉ [0,1,2,3,4,5,6,7,8,12,16,20,24,32,48,64] → dlcOf n = 0) := by
-  refine ⟨dlcOf_le n, ?_, ?_, ?_⟩
+    (n ≤ 64 → n ≤ [0,1,2,3,4,5,6,7,8,12,16,20,24,32,48,64].getD (dlcOf n) 0 ∧ ∀ c, c < dlcOf n → [0,1,2,3,4,5,6,7,8,12,16,20,24,32,48,64].getD c 0 < n) ∧
+    (64 < n → dlcOf n = 15) := by
+  refine ⟨dlcOf_le n, ?_, ?_, ?_, dlc_above_64 n⟩
   · intro h
     simp only [List.mem_cons, List.not_mem_nil, or_false] at h
     rcases h with h | h | h | h | h | h | h | h | h | h | h | h | h | h | h | h <;> subst h <;> decide
@@ -504,10 +509,9 @@ theorem dlc_complete (n : Nat) :
         c = 12 ∨ c = 13 ∨ c = 14 ∨ c = 15 := by omega
     rcases hc' with e | e | e | e | e | e | e | e | e | e | e | e | e | e | e | e <;> subst e <;> subst h <;> decide
   · intro h
-    simp only [List.mem_cons, List.not_mem_nil, or_false, not_or] at h
-    unfold dlcOf
-    repeat' split
-    all_goals omega
+    have hc := dlc_covers n h
+    simp only [dlcLen_table] at hc
+    exact hc
 
 /-- the DLC code stands for the data length exactly when the length is one of the sixteen ISO lengths -/
 theorem dlc_matches_iff (n : Nat) :
@@ -541,22 +545,32 @@ theorem can_dlc_matches_iff (b d : Bytes) (hd : d.length < 256) :
   rw [h14, h15]
   exact dlc_matches_iff d.length
 
-/-- NEGATIVE (K5, "the CAN DLC code match[es] the data length", quantified over "0..255 for CAN"): for each of the 240 lengths
-    that have no ISO code the builder writes DLC 0 — the code of an EMPTY frame — next to a non-zero data length, and the
-    library's own validator and `Packet::create` (both CAN and CAN-FD) accept the result (header hypotheses as in the
+/-- K5 ("the CAN DLC code match[es] the data length", quantified over "0..255 for CAN") on a built CAN / CAN-FD payload, for
+    every prior object `b` of any length and every API length 0..255.  (Before the repair of `encodeDlc` this place held the
+    NEGATIVE theorem `can_dlc_mismatch_accepted`: DLC 0 next to a non-zero data length for 240 of the 256 lengths.)
+    The DLC byte is `dlcOf` of the number of bytes supplied and the data-length byte is that number; hence
+    * the DLC byte is a 4-bit code, and it is 0 only for an empty data field;
+    * for every length a CAN FD frame can carry (≤ 64) the data field the DLC byte announces COVERS the data-length byte, and no
+      smaller code's data field does (the smallest sufficient CAN FD step);
+    * the announced size EQUALS the data-length byte exactly for the sixteen ISO lengths;
+    * above 64 the DLC byte is 15;
+    and the library's own validator and `Packet::create` (CAN and CAN-FD) accept the result (header hypotheses as in the
     registered `can_setData_valid`: no error flags, no error position). -/
-theorem can_dlc_mismatch_accepted (b d : Bytes) (hd : d.length < 256)
-    (hn : d.length ∉ [0,1,2,3,4,5,6,7,8,12,16,20,24,32,48,64])
-    (hflags : beAt (resize b 16) 0 2 &&& 0x03FF = 0) (herr : beAt (resize b 16) 12 2 = 0) :
+theorem can_dlc_covers_length (b d : Bytes) (hd : d.length < 256) :
     let o := canSetData b d
-    byteAt o 14 = 0 ∧ byteAt o 15 = d.length ∧ d.length ≠ 0 ∧ o.drop 16 = d ∧
-    canValid o = true ∧ create tyCan o = ⟨tyCan, o⟩ ∧ create tyCanFd o = ⟨tyCanFd, o⟩ := by
+    byteAt o 14 = dlcOf d.length ∧ byteAt o 15 = d.length ∧ o.drop 16 = d ∧
+    byteAt o 14 ≤ 15 ∧ (byteAt o 14 = 0 ↔ d.length = 0) ∧
+    (d.length ≤ 64 → byteAt o 15 ≤ dlcLen (byteAt o 14) ∧ ∀ c, c < byteAt o 14 → dlcLen c < byteAt o 15) ∧
+    (dlcLen (byteAt o 14) = byteAt o 15 ↔ d.length ∈ [0,1,2,3,4,5,6,7,8,12,16,20,24,32,48,64]) ∧
+    (64 < d.length → byteAt o 14 = 15) ∧
+    (beAt (resize b 16) 0 2 &&& 0x03FF = 0 → beAt (resize b 16) 12 2 = 0 →
+      canValid o = true ∧ create tyCan o = ⟨tyCan, o⟩ ∧ create tyCanFd o = ⟨tyCanFd, o⟩) := by
   intro o
   obtain ⟨_, _, h14, h15, hdr, _, hv⟩ := can_setData_any b d hd
-  obtain ⟨v1, v2, v3⟩ := hv hflags herr
-  have h0 : d.length ≠ 0 := by
-    intro h; apply hn; rw [h]; decide
-  exact ⟨by rw [h14]; exact (dlc_complete d.length).2.2.2 hn, h15, h0, hdr, v1, v2, v3⟩
+  rw [h14, h15]
+  refine ⟨rfl, rfl, hdr, dlcOf_le _, dlc_zero_iff _, dlc_covers _, ?_, dlc_above_64 _, hv⟩
+  rw [dlcLen_table]
+  exact dlc_matches_iff d.length
 
 /-! ## §E  built payloads through the message framing  (finding 4)
 
@@ -810,11 +824,19 @@ example :
   obtain ⟨hl, _, _, _, ⟨w1, w2, w3, w4, ha⟩, _⟩ := h
   exact ⟨w1, w2, w3, w4, _, ha, hl.trans (by decide)⟩
 
-/-- §D: lengths without an ISO code: 9 bytes on a CAN-FD object → DLC byte 0, length byte 9, accepted by the library -/
-example : (canSetData canDefault [1,2,3,4,5,6,7,8,9]).drop 14 = [0, 9, 1,2,3,4,5,6,7,8,9] ∧
+/-- §D: lengths without an ISO code: 9 bytes on a CAN-FD object → DLC byte 9 (a 12-byte data field), length byte 9, accepted by
+    the library; 13 bytes → DLC byte 10 -/
+example : (canSetData canDefault [1,2,3,4,5,6,7,8,9]).drop 14 = [9, 9, 1,2,3,4,5,6,7,8,9] ∧
     create tyCanFd (canSetData canDefault [1,2,3,4,5,6,7,8,9]) = ⟨tyCanFd, canSetData canDefault [1,2,3,4,5,6,7,8,9]⟩ := by
   decide
-example : dlcOf 9 = 0 ∧ dlcOf 63 = 0 ∧ dlcOf 65 = 0 ∧ dlcOf 255 = 0 ∧ dlcOf 300 = 0 := by decide
+example : (canSetData canDefault [1,2,3,4,5,6,7,8,9,10,11,12,13]).drop 14 = [10, 13, 1,2,3,4,5,6,7,8,9,10,11,12,13] := by decide
+example : dlcOf 9 = 9 ∧ dlcOf 13 = 10 ∧ dlcOf 63 = 15 ∧ dlcOf 64 = 15 ∧ dlcOf 65 = 15 ∧ dlcOf 200 = 15 ∧ dlcOf 255 = 15 ∧
+    dlcOf 300 = 15 := by decide
+example : dlcLen (dlcOf 9) = 12 ∧ dlcLen (dlcOf 13) = 16 ∧ dlcLen (dlcOf 64) = 64 ∧ dlcLen (dlcOf 65) = 64 ∧
+    dlcLen (dlcOf 200) = 64 := by decide
+example : (List.range 256).map dlcOf =
+    [0,1,2,3,4,5,6,7,8] ++ List.replicate 4 9 ++ List.replicate 4 10 ++ List.replicate 4 11 ++ List.replicate 4 12 ++
+      List.replicate 8 13 ++ List.replicate 16 14 ++ List.replicate 207 15 := by decide +kernel
 example : (9 : Nat) ∉ [0,1,2,3,4,5,6,7,8,12,16,20,24,32,48,64] := by decide
 
 /-- finding 9: CAN-FD with the allowed flags BRS and ESI (bits 12, 13 of the flags word) set satisfies the hypotheses of
